@@ -442,15 +442,17 @@ def Ctx.opNoteP2P (c : Ctx) (a : Actor) (peer : Uid) (what : String) (seqArg : I
     if t.inactive then c else
     if seqArg > t.lastId then c else
     let pud := t.pud a.uid
-    if !notePass t (eff pud) what then c else
+    -- a participant who has left keeps a record marked deleted: it has no permissions any more (topic.go:1199-1201)
+    let mode : Mode := if pud.deleted then 0 else eff pud
+    if !notePass t mode what then c else
     match noteMarks pud what seqArg with
     | none => c
     | some (pud', read, recv) =>
       match c.noteStoreP2P tn a.uid read recv with
       | (c, false) => c
       | (c, true) =>
-        let c := if read > 0 then c.presSingleOffline t a.uid (eff pud) "read" s!" seq={read}" "" "" a.sid true
-          else if recv > 0 then c.presSingleOffline t a.uid (eff pud) "recv" s!" seq={recv}" "" "" a.sid true
+        let c := if read > 0 then c.presSingleOffline t a.uid mode "read" s!" seq={read}" "" "" a.sid true
+          else if recv > 0 then c.presSingleOffline t a.uid mode "recv" s!" seq={recv}" "" "" a.sid true
           else c
         let t := if (if read > 0 then read else recv) > 0 then t.setPud a.uid pud' else t
         let c := c.infoSubsOffline t a.uid what seqArg a.sid
